@@ -519,6 +519,11 @@ def gen_use(quick, seed):
                            'probe(pv(1), use("b.p"), pv(2))', 'for ; use("b.p"); { probe(3)\nbreak }', 'q = [pv(1), use("c.p"), pv(2)]',
                            'for v in [use("b.p")] { probe(v) }', '(use("b.p"))', 'm = {"k": use("b.p")}', 'for i = 0; i < 2; use("b.p") { i = i + 1 }']):
         out.append(ps("use:expr:%d" % i, "probe(0)\n" + t + "\nprobe(7)", pt=STD_PT, extra=xb, tag="use() in expression position (unspecified)"))
+    # the use() call is the very first token of its script (offset 0), also in a script that only forwards
+    for i, (m, b, c) in enumerate([('use("b.p")\nprobe(1)', 'use("c.p")', "q = 1 + nil"), ('use("b.p")', 'use("c.p")\nprobe(2)', "probe(3)\nq = len(1, 2)" if False else "probe(3)\nq = 1 + nil"),
+                                   ('probe(0)\nuse("b.p")', 'use("c.p")', 'add_key(kq, 1 + nil)'), ('use("b.p")', "q = 1 + nil", "probe(1)"),
+                                   ('use("b.p")\nuse("c.p")', "probe(1)", "q = 1 + nil")]):
+        out.append(ps("use:first:%d" % i, m, pt=STD_PT, extra={"b.p": b, "c.p": c}, tag="use() at the very start of a script; callee fails"))
     out.append(ps("use:twice", 'use("b.p")\nuse("b.p")\nprobe(n)', pt=STD_PT, extra={"b.p": "add_key(n, 1)\nprobe(n)"}, tag="use twice"))
     out.append(ps("use:loop", 'for i = 0; i < 3; i = i + 1 {\nuse("b.p")\n}\nprobe(i)', pt=STD_PT,
                   extra={"b.p": "for j in [1, 2] {\nif j == 2 { exit() }\nprobe(j)\n}\nprobe(99)"}, tag="use in a loop, exit in callee loop"))
@@ -789,7 +794,7 @@ BVALS = [("int", "7", 7), ("float", "1.5", 1.5), ("bool", "true", True), ("strpa
          ("float0", "0.0", 0.0), ("strx", '"x"', "x")]
 SITUATIONS = ["var", "field", "tag", "var+field", "var+tag", "absent"]
 BCALLS = [
-    "add_key(k)", "add_key(k, 5)", 'add_key("k", 5)', "probe(get_key(k))", "set_tag(k)", 'set_tag(k, "v")', "set_tag(k, fi)", "set_tag(k, nosuch)",
+    "add_key(k)", "add_key(k, 5)", 'add_key("k", 5)', "add_key(k, q.r)\nprobe(k)\nadd_key(k, 5)", "add_key(k, nil)", "set_tag(k, q.r)", "add_key(k, q.r)\nset_tag(k)", "probe(get_key(k))", "set_tag(k)", 'set_tag(k, "v")', "set_tag(k, fi)", "set_tag(k, nosuch)",
     "drop_key(k)", "rename(nk, k)", "rename(k, fi)", "rename(tg, k)", "rename(k, k)", "rename(nk, nosuch)",
     'cast(k, "int")', 'cast(k, "float")', 'cast(k, "str")', 'cast(k, "bool")', 'cast(k, "string")',
     "set_measurement(k)", "set_measurement(k, true)", "set_measurement(k, false)", 'set_measurement("lit")', 'set_measurement("lit", true)',
@@ -866,12 +871,17 @@ def gen_builtins(quick, seed):
                               pt={"meas": "m", "tags": {"tg": "tv"}, "fields": {"fi": 7, "fs": " sv ", "message": msg, "a.b": "dotted"}},
                               tag="the _ alias with a shadowing variable"))
     # sequences: the return register is not stale between calls; bystanders untouched
-    seqs = ["x = len(fs)\ny = get_key(nosuch)\nprobe(x, y)", "probe(len(fs), get_key(fi), len(nosuch))", "x = get_key(fi)\nadd_key(q, 1)\ny = x\nprobe(x, y)",
+    J1, J2 = '"[1,\\"a\\",null]"', '"{\\"a\\":{\\"b\\":[true]}}"'     # texts of the model's JSON catalog
+    seqs = ['a = load_json(%s)\na[0] = 99\nb = load_json(%s)\nprobe(a, b)' % (J1, J1),
+            'a = load_json(%s)\na["a"]["b"][0] = 7\na["n"] = 1\nprobe(load_json(%s), a)' % (J2, J2),
+            'probe(load_json(%s), load_json(%s))' % (J1, J2),
+            'a = load_json(fj)\na[1] = 5\nprobe(load_json(fj))\nb = load_json(fj)\nb[0] = a\nprobe(load_json(fj), b)',
+            "x = len(fs)\ny = get_key(nosuch)\nprobe(x, y)", "probe(len(fs), get_key(fi), len(nosuch))", "x = get_key(fi)\nadd_key(q, 1)\ny = x\nprobe(x, y)",
             "x = load_json(\"1\")\ntrim(fs)\nprobe(x)", "cast(fi, \"str\")\nx = get_key(fi)\nprobe(x + \"!\")", "drop_key(fi)\nprobe(fi, get_key(fi))",
             "fi = 100\ncast(fi, \"str\")\nprobe(fi, get_key(fi))", "fs = \"  v \"\ntrim(fs)\nprobe(fs, get_key(fs))"]
     for t in seqs:
         n += 1
-        out.append(ps("bi:%d" % n, t, pt=STD_PT, tag="builtin sequences"))
+        out.append(ps("bi:%d" % n, t, pt={"meas": "m", "tags": dict(STD_PT["tags"]), "fields": dict(STD_PT["fields"], fj='[1,"a",null]')}, tag="builtin sequences"))
     return out
 
 
@@ -898,6 +908,11 @@ SCOPE_TEMPLATES = [
     '@D@\nadd_pattern("pair", "%{my}-%{my}")\nok = grok(k2, "%{pair:p}")\nprobe(ok, p)', 'add_pattern("pair", "%{my}-%{my}")\n@D@\nok = grok(k2, "%{pair:p}")',
     'ok = grok(k, "%{NOSUCHPATTERN:x}")', 'add_pattern("a", "%{NOSUCHPATTERN}")', '@D@\nok = grok(k, "%{my:num:int} %{other:o}")',
     'if true {\n@D@\n}\nif true {\n@G@\n}', 'for v in [1] {\n@D@\n}\nfor v in [1] {\n@G@\n}',
+    # empty blocks next to a definition change nothing about where it is visible
+    'if false {\n@D@\nif k { }\n} else {\n@G@\n}', 'if false {\n@D@\nif k { } elif k { }\n} elif true {\n@G@\n}',
+    'if true {\n@D@\nif k { } elif k { } else { }\nfor v in [] { }\n}\n@G@', 'if true {\nif k { }\n@D@\n@G@\n}',
+    'add_pattern("my", "[a-c]+")\nif false {\n@D@\nif k { }\nif k { } elif k { }\n} else {\n@G@\n}\n@G@',
+    'if true {\n} else {\n@D@\n}\n@G@', 'for ;; {\n@D@\nif k { }\nbreak\n}\n@G@', 'if k { }\n@D@\nif k { } else { }\n@G@',
 ]
 
 
